@@ -183,9 +183,9 @@ func (r *SortReg) zero(t types.Type, lits *Lits) string {
 	case *types.Pointer, *types.Map, *types.Chan, *types.Signature:
 		return "0"
 	case *types.Slice:
-		return "nil-slice"
+		return "(mk-slice 0 0 0 0)"
 	case *types.Interface, *types.TypeParam:
-		return "nil-iface"
+		return "(mk-iface 0 0)"
 	case *types.Struct:
 		sn := r.sortOf(t)
 		_ = sn
